@@ -207,7 +207,7 @@ def main():
     jobs_n = int(args[args.index("--jobs") + 1]) if "--jobs" in args else 4
     manifest = json.load(open(os.path.join(VERIF, "MANIFEST.json")))
     props = [c["property_id"] for c in manifest["checks"]]
-    if which != "all":
+    if which not in ("all", "own"):
         props = [which]
     tmp = tempfile.mkdtemp(prefix="vx-selftest-")
     results = []
@@ -229,8 +229,11 @@ def main():
                 continue
             open(path, "w").write(new)
             for prop in props:
-                if expect is None and which == "all":
-                    pass
+                if which == "own":
+                    # every mutant against the properties expected (or allowed) to report it only
+                    exp = MUST_OVERRIDE.get(name, expect) or set()
+                    if prop not in (set(exp) | MAY.get(name, set())):
+                        continue
                 jobs.append((name, scratch, prop, os.path.join(tmp, "b%02d-%s" % (k, prop))))
         with cf.ThreadPoolExecutor(max_workers=jobs_n) as ex:
             for name, prop, rc, lines in ex.map(run_one, jobs):
